@@ -65,6 +65,8 @@ impl<In: Send + 'static> NetworkReceiver<In> {
         message: Result<NetworkMessage<In>, E>,
     ) -> Result<NetworkMessage<In>, E> {
         message.map(|message| {
+            #[cfg(feature = "verif")]
+            crate::network::verif_hooks::observe_recv(self.receiver_endpoint, &message);
             get_profiler().items_in(
                 message.sender,
                 self.receiver_endpoint.coord,
@@ -134,6 +136,8 @@ enum SenderInner<Out: Send + 'static> {
 
 impl<Out: ExchangeData> NetworkSender<Out> {
     pub fn send(&self, message: NetworkMessage<Out>) -> Result<(), NetworkSendError> {
+        #[cfg(feature = "verif")]
+        crate::network::verif_hooks::observe_send(self.receiver_endpoint, &message);
         get_profiler().items_out(
             message.sender,
             self.receiver_endpoint.coord,
